@@ -379,13 +379,17 @@ func main() {
 					for i, x := range b {
 						input[i] = u.keys[x]
 					}
-					res := run(u, "IterUpdate", st, input, func([]byte) dec { return replace }, func([]byte) dec { return keep })
-					part.Executions++
-					part.Transitions += int64(len(st) + len(b))
-					if res.err == nil {
-						r.Violate(part.Name, "ill-ordered-input-accepted", fmt.Sprintf("%s/IterUpdate stored=%v input order %v accepted", u.name, st, b), map[string]any{"universe": u.name, "stored": st, "input": b})
-					} else {
-						outcomes["rejected"] = true
+					// whatever the iterator decides per key (a delete or keep decision never reaches LMDB's own order check)
+					for _, md := range []dec{replace, del, keep} {
+						md := md
+						res := run(u, "IterUpdate", st, input, func([]byte) dec { return md }, func([]byte) dec { return keep })
+						part.Executions++
+						part.Transitions += int64(len(st) + len(b))
+						if res.err == nil {
+							r.Violate(part.Name, "ill-ordered-input-accepted", fmt.Sprintf("%s/IterUpdate stored=%v input order %v (merge decision %d for every key) accepted", u.name, st, b, md), map[string]any{"universe": u.name, "stored": st, "input": b, "decision": int(md)})
+						} else {
+							outcomes["rejected"] = true
+						}
 					}
 				}
 			}
